@@ -66,3 +66,77 @@ func (x *Bool) CompareAndSwap(o, n bool) bool {
 	sched.Point("Bool.CompareAndSwap")
 	return x.v.CompareAndSwap(o, n)
 }
+
+// Uintptr mirrors atomic.Uintptr.
+type Uintptr struct{ v atomic.Uintptr }
+
+func (x *Uintptr) Load() uintptr          { sched.Point("Uintptr.Load"); return x.v.Load() }
+func (x *Uintptr) Store(v uintptr)        { sched.Point("Uintptr.Store"); x.v.Store(v) }
+func (x *Uintptr) Add(d uintptr) uintptr  { sched.Point("Uintptr.Add"); return x.v.Add(d) }
+func (x *Uintptr) Swap(v uintptr) uintptr { sched.Point("Uintptr.Swap"); return x.v.Swap(v) }
+func (x *Uintptr) CompareAndSwap(o, n uintptr) bool {
+	sched.Point("Uintptr.CompareAndSwap")
+	return x.v.CompareAndSwap(o, n)
+}
+
+// Pointer mirrors atomic.Pointer.
+type Pointer[T any] struct{ v atomic.Pointer[T] }
+
+func (x *Pointer[T]) Load() *T     { sched.Point("Pointer.Load"); return x.v.Load() }
+func (x *Pointer[T]) Store(v *T)   { sched.Point("Pointer.Store"); x.v.Store(v) }
+func (x *Pointer[T]) Swap(v *T) *T { sched.Point("Pointer.Swap"); return x.v.Swap(v) }
+func (x *Pointer[T]) CompareAndSwap(o, n *T) bool {
+	sched.Point("Pointer.CompareAndSwap")
+	return x.v.CompareAndSwap(o, n)
+}
+
+// Value mirrors atomic.Value.
+type Value struct{ v atomic.Value }
+
+func (x *Value) Load() any      { sched.Point("Value.Load"); return x.v.Load() }
+func (x *Value) Store(v any)    { sched.Point("Value.Store"); x.v.Store(v) }
+func (x *Value) Swap(v any) any { sched.Point("Value.Swap"); return x.v.Swap(v) }
+func (x *Value) CompareAndSwap(o, n any) bool {
+	sched.Point("Value.CompareAndSwap")
+	return x.v.CompareAndSwap(o, n)
+}
+
+// Function forms of sync/atomic (a change under test may switch to them).
+func AddInt32(a *int32, d int32) int32     { sched.Point("AddInt32"); return atomic.AddInt32(a, d) }
+func AddInt64(a *int64, d int64) int64     { sched.Point("AddInt64"); return atomic.AddInt64(a, d) }
+func AddUint32(a *uint32, d uint32) uint32 { sched.Point("AddUint32"); return atomic.AddUint32(a, d) }
+func AddUint64(a *uint64, d uint64) uint64 { sched.Point("AddUint64"); return atomic.AddUint64(a, d) }
+func LoadInt32(a *int32) int32             { sched.Point("LoadInt32"); return atomic.LoadInt32(a) }
+func LoadInt64(a *int64) int64             { sched.Point("LoadInt64"); return atomic.LoadInt64(a) }
+func LoadUint32(a *uint32) uint32          { sched.Point("LoadUint32"); return atomic.LoadUint32(a) }
+func LoadUint64(a *uint64) uint64          { sched.Point("LoadUint64"); return atomic.LoadUint64(a) }
+func StoreInt32(a *int32, v int32)         { sched.Point("StoreInt32"); atomic.StoreInt32(a, v) }
+func StoreInt64(a *int64, v int64)         { sched.Point("StoreInt64"); atomic.StoreInt64(a, v) }
+func StoreUint32(a *uint32, v uint32)      { sched.Point("StoreUint32"); atomic.StoreUint32(a, v) }
+func StoreUint64(a *uint64, v uint64)      { sched.Point("StoreUint64"); atomic.StoreUint64(a, v) }
+func SwapInt32(a *int32, v int32) int32    { sched.Point("SwapInt32"); return atomic.SwapInt32(a, v) }
+func SwapInt64(a *int64, v int64) int64    { sched.Point("SwapInt64"); return atomic.SwapInt64(a, v) }
+func SwapUint32(a *uint32, v uint32) uint32 {
+	sched.Point("SwapUint32")
+	return atomic.SwapUint32(a, v)
+}
+func SwapUint64(a *uint64, v uint64) uint64 {
+	sched.Point("SwapUint64")
+	return atomic.SwapUint64(a, v)
+}
+func CompareAndSwapInt32(a *int32, o, n int32) bool {
+	sched.Point("CompareAndSwapInt32")
+	return atomic.CompareAndSwapInt32(a, o, n)
+}
+func CompareAndSwapInt64(a *int64, o, n int64) bool {
+	sched.Point("CompareAndSwapInt64")
+	return atomic.CompareAndSwapInt64(a, o, n)
+}
+func CompareAndSwapUint32(a *uint32, o, n uint32) bool {
+	sched.Point("CompareAndSwapUint32")
+	return atomic.CompareAndSwapUint32(a, o, n)
+}
+func CompareAndSwapUint64(a *uint64, o, n uint64) bool {
+	sched.Point("CompareAndSwapUint64")
+	return atomic.CompareAndSwapUint64(a, o, n)
+}
